@@ -731,6 +731,61 @@ pub fn run_op(r: &Req, b: &Built) -> Result<String, String> {
             Ok(format!("{} emptyreads={}", out, rdr.empty_buf_calls))
         }
         "meta" => Ok(with_srch(b, &mut |s| s.meta())),
+        "selfcheck" => {
+            // C20 (exploration half): after a build that did not panic, every sampled
+            // pattern embedded in a haystack is found as a genuine occurrence with a
+            // valid id, and the searcher's pattern count mirrors the input.
+            let pats = r.list("pats")?;
+            let mk = match_kind(r)?;
+            let n = pats.len();
+            let step = (n / 25).max(1);
+            Ok(with_srch(b, &mut |s| {
+                let mut i = 0;
+                while i < n {
+                    let p = &pats[i];
+                    let mut hay = vec![0u8];
+                    hay.extend_from_slice(p);
+                    hay.push(0);
+                    let mut res = s.find(Input::new(&hay));
+                    if matches!(&res, Err(e) if err_name(e) == "err-unanchored") {
+                        // anchored-only searcher: anchor at the embedded pattern
+                        res = s.find(
+                            Input::new(&hay)
+                                .span(1..hay.len())
+                                .anchored(Anchored::Yes),
+                        );
+                    }
+                    match res {
+                        Err(e) => return err_name(&e),
+                        Ok(None) => return format!("bad:none-for-{}", i),
+                        Ok(Some(m)) => {
+                            let pid = m.pattern().as_usize();
+                            let fold = r.b("fold");
+                            let same = |a: &[u8], b: &[u8]| {
+                                a.len() == b.len()
+                                    && a.iter().zip(b).all(|(x, y)| {
+                                        if fold {
+                                            x.to_ascii_lowercase()
+                                                == y.to_ascii_lowercase()
+                                        } else {
+                                            x == y
+                                        }
+                                    })
+                            };
+                            if pid >= n
+                                || m.end() > hay.len()
+                                || !same(&hay[m.start()..m.end()], &pats[pid][..])
+                            {
+                                return format!("bad:wrong-match-for-{}", i);
+                            }
+                            let _ = mk;
+                        }
+                    }
+                    i += step;
+                }
+                "ok".to_string()
+            }))
+        }
         "cost" => {
             let hay = r.bytes("hay")?;
             let input = mk_input(r, &hay)?;
